@@ -104,6 +104,8 @@ class World(object):
         self.ticks = 0
         self.broken = None     # set when a known-finding pruned this branch
         self.params = {}
+        self.shared = {}       # this world's copies of class- / module-level containers of the implementation
+        self.install_shared()
 
     # ---- infrastructure
     def add_proc(self, name):
@@ -114,7 +116,18 @@ class World(object):
     def activate(self, proc=None):
         '''Point the global seams (GLib context, clock) at this world.'''
         _env.NOW.clock = self.clock
+        self.install_shared()
         GLib.set_current(proc.ctx if proc is not None else None)
+
+    def install_shared(self):
+        '''Bind the implementation's class- and module-level containers to this world's copies.'''
+        sites = _env.shared_sites()
+        if not sites:
+            return
+        for (i, (owner, attr, pristine)) in enumerate(sites):
+            if i not in self.shared:
+                self.shared[i] = copy.deepcopy(pristine)
+            setattr(owner, attr, self.shared[i])
 
     def in_proc(self, proc, func, *args, **kwargs):
         '''Run harness-side construction code inside a process context.'''
@@ -141,6 +154,10 @@ class World(object):
             c.walk(mon)
         c.out.append('extra')
         self.canon_extra(c)
+        if self.shared:
+            c.out.append('shared')
+            for i in sorted(self.shared):
+                c.walk(self.shared[i])
         return c
 
     def canon_extra(self, c):
